@@ -40,7 +40,96 @@ class FunctionSource:
                     lines=list(self.lines), sha256=self.sha256, kind=self.kind)
 
 
+def binding_order(fnode):
+    """names bound inside a function, in source order of their first binding
+    (parameters first)"""
+    out = []
+
+    def add(n):
+        if n not in out:
+            out.append(n)
+    a = fnode.args
+    for x in a.posonlyargs + a.args + a.kwonlyargs:
+        add(x.arg)
+    if a.vararg:
+        add(a.vararg.arg)
+    if a.kwarg:
+        add(a.kwarg.arg)
+
+    def targets(t):
+        if isinstance(t, ast.Name):
+            add(t.id)
+        elif isinstance(t, (ast.Tuple, ast.List)):
+            for e in t.elts:
+                targets(e)
+        elif isinstance(t, ast.Starred):
+            targets(t.value)
+
+    def walk(stmts):
+        for st in stmts:
+            if isinstance(st, (ast.FunctionDef, ast.ClassDef, ast.Lambda)):
+                continue
+            if isinstance(st, ast.Assign):
+                for t in st.targets:
+                    targets(t)
+            elif isinstance(st, (ast.AugAssign, ast.AnnAssign)):
+                targets(st.target)
+            elif isinstance(st, (ast.For, ast.AsyncFor)):
+                targets(st.target)
+            elif isinstance(st, (ast.With, ast.AsyncWith)):
+                for it in st.items:
+                    if it.optional_vars is not None:
+                        targets(it.optional_vars)
+            for fld in ('body', 'orelse', 'finalbody'):
+                sub = getattr(st, fld, None)
+                if isinstance(sub, list):
+                    walk(sub)
+            for h in getattr(st, 'handlers', []) or []:
+                if h.name:
+                    add(h.name)
+                walk(h.body)
+    walk(fnode.body)
+    return out
+
+
+_REF_LOCALS = None
+
+
+def reference_locals():
+    """binding order of the locals of every function at the commit the
+    contracts were written against (reference/locals.json, committed)"""
+    global _REF_LOCALS
+    if _REF_LOCALS is None:
+        import json
+        path = os.path.join(os.path.dirname(os.path.dirname(
+            os.path.abspath(__file__))), 'reference', 'locals.json')
+        try:
+            _REF_LOCALS = json.load(open(path))
+        except (OSError, ValueError):
+            _REF_LOCALS = {}
+    return _REF_LOCALS
+
+
 class Frontend:
+    def local_aliases(self, qualname):
+        """{current local name: name the contracts use} when the function
+        differs from the reference only by a consistent renaming of locals
+        (same number of bindings in the same order); {} otherwise"""
+        fs = self.functions.get(qualname)
+        ref = reference_locals().get(qualname)
+        if fs is None or not ref:
+            return {}
+        cur = binding_order(fs.node)
+        if len(cur) != len(ref) or cur == ref:
+            return {}
+        out = {}
+        for c, r in zip(cur, ref):
+            if c != r:
+                if r in cur or c in ref:
+                    return {}        # not a plain renaming
+                out[c] = r
+        return out
+
     def __init__(self, repo=None):
         self.repo = repo or REPO
         self.functions = {}
